@@ -183,6 +183,8 @@ func H18_config() {
 	}
 	vAssert(!cfg.InsecureSkipVerify, "C18.server-certificate-verification-not-disabled")
 	vAssert(cfg.VerifyPeerCertificate == nil && cfg.VerifyConnection == nil, "C18.no-verification-override")
+	vAssert(cfg.Time == nil, "C18.certificates-verified-at-the-real-current-time")
+	vAssert(cfg.Rand == nil && cfg.KeyLogWriter == nil, "C18.no-weakened-randomness-or-key-logging")
 	vAssert(cfg.MinVersion >= tls.VersionTLS12, "C18.tls-1.2-or-later")
 	vAssert(cfg.MaxVersion == 0 || cfg.MaxVersion >= cfg.MinVersion, "C18.max-version-not-below-min")
 	vAssert(cfg.RootCAs != nil, "C18.root-cas-set")
